@@ -416,8 +416,9 @@ impl RefInterp {
                 _ => self.unsupported(name),
             },
             "ref" => {
-                let id = self.co.new_cell();
-                Ok(RV::Ref(Arc::new(RCell { id, v: Mutex::new(args.into_iter().next().unwrap_or(RV::Unit)) })))
+                let init = args.into_iter().next().unwrap_or(RV::Unit);
+                let id = self.co.new_cell(render(&init));
+                Ok(RV::Ref(Arc::new(RCell { id, v: Mutex::new(init) })))
             }
             "ref_get" => match a0 {
                 Some(RV::Ref(c)) => {
